@@ -916,6 +916,13 @@ class Interp(Engine):
     def call_repo_function(self, st, fi: FuncInfo, args, kwargs, node):
         c = self.reg.contracts.get(fi.key)
         top = st.frames[0] if st.frames else None
+        if c is None and top is not None and top.contract is not None and not self.spec_mode:
+            # a function that only has contract variants (per dispatch class): the calling contract names the variant its
+            # call goes through (`call_variants={qualname: variant}`); the variant's declared parameter types are then
+            # checked against the actual arguments like any contract's
+            v = getattr(top.contract, "call_variants", {}).get(fi.qualname)
+            if v is not None:
+                c = self.reg.contracts.get((fi.key[0], fi.key[1] + "#" + v))
         if top is not None and top.contract is not None and fi.qualname in top.contract.inline_callees and not self.spec_mode:
             from .contracts import Contract
             synth = Contract(fi.file, fi.qualname, loops=top.contract.inline_callees[fi.qualname],
